@@ -29,6 +29,7 @@ def run(ctx):
     D.rule_dr1(ctx)
     D.rule_dr2(ctx)
     D.rule_dr3(ctx)
+    D.rule_dr4(ctx)
     u1(ctx, ENTRIES, min_functions=30)
     ctx.r.assume("that the path visits the vertices along geodesics (arc "
                  "reversal heuristic, radius threshold) needs values and is "
